@@ -127,6 +127,8 @@ def run(chk):
         T = rng.choice([0.5, 1.0, 2.0])
         nst = rng.choice([2, 3, 4, 5, 7, 10, 25])
         kind = rng.choice(["commuting", "commuting", "zero-coupling", "weak"])
+        if it < 2:
+            nst, kind = [2, 3][it], "zero-coupling"          # every run: the minimal slice numbers with a complex Hamiltonian
         o = np.array([rng.choice([-1.0, 0.0, 0.5, 1.0]) for _ in range(d)])
         alpha = 0.0 if kind == "zero-coupling" else (0.3 if kind == "commuting" else 1e-4)
         corr = oqupy.PowerLawSD(alpha=alpha, zeta=rng.choice([1, 3]), cutoff=rng.choice([1.0, 3.0]),
@@ -143,6 +145,7 @@ def run(chk):
             g = oqupy.GibbsTempo(oqupy.System(H), bath, oqupy.GibbsParameters(n_steps=nst, epsrel=1e-10))
             quiet(g.compute, progress_type="silent")
             s1 = g.get_state()
+            slices = [(float(t_), np.array(x_)) for t_, x_ in zip(g.get_dynamics().times, g.get_dynamics().states)]
             quiet(g.compute, progress_type="silent")
             s2 = g.get_state()
         except Exception as ex:
@@ -164,6 +167,15 @@ def run(chk):
             want = expm(-H / T)
             want = want / np.trace(want)
             tol = 1e-8 if kind == "zero-coupling" else 5e-3
+        if kind == "zero-coupling":
+            # every recorded imaginary-time slice: exp(-H tau) (un-normalised), not only the last one
+            for tau_, x_ in slices:
+                wk = expm(-H * tau_)
+                dk = np.abs(x_ - wk).max() / max(1.0, np.abs(wk).max())
+                if dk > 1e-8:
+                    chk.fail("gibbs-slice-wrong", f"GibbsTempo at zero coupling: the recorded state at imaginary time {tau_:.4g} deviates from exp(-H tau) by {dk:.2e} "
+                             f"(from its transpose by {np.abs(x_.T - wk).max() / max(1.0, np.abs(wk).max()):.2e}); n_steps={nst}", dict(info, tau=tau_))
+                    break
         dev = np.abs(s1 - want).max()
         if dev > tol:
             what = {"commuting": "the exact reduced thermal state (Boltzmann weights shifted by the reorganisation energy)",
